@@ -12,8 +12,8 @@ import (
 //
 //	//a:lib   glob inputs src/*.txt, file output out/lib.txt (+ optional extra.txt); renders every
 //	          input as name=content so that file boundaries are observable
-//	//a:al    alias -> :lib
-//	//b:app   depends on //a:al ONLY through the alias (or directly, toggle), input app.in,
+//	//a:al    alias -> :lib;  //a:al2 alias -> //a:al
+//	//b:app   depends on //a:lib ONLY through the alias chain al2 -> al (or directly, toggle), input app.in,
 //	          directory output dist/ (file, executable, symlink, empty sub-directory)
 //	//b:top   no outputs, depends on :app, records the digest of what it read
 //	//b:tool  bin_output tool.sh
@@ -129,14 +129,15 @@ echo "end $GROG_TARGET" >> "$VTRACE"`
 		lib.Fingerprint = map[string]string{"k": "v=w"}
 	}
 	s.Targets = append(s.Targets, lib)
-	s.Aliases = append(s.Aliases, hist.Alias{Pkg: "a", Name: "al", Actual: ":lib"})
+	// an alias of an alias: //b:app reaches //a:lib only through the chain al2 -> al -> lib
+	s.Aliases = append(s.Aliases, hist.Alias{Pkg: "a", Name: "al", Actual: ":lib"}, hist.Alias{Pkg: "a", Name: "al2", Actual: "//a:al"})
 
 	appIn := "app-v1"
 	if w.T[tgAppIn] {
 		appIn = "app-v2"
 	}
 	s.Files["b/app.in"] = hist.File{Content: appIn}
-	appDep := "//a:al"
+	appDep := "//a:al2"
 	if w.T[tgDirectEdge] {
 		appDep = "//a:lib"
 	}
